@@ -235,7 +235,7 @@ func groupKind(g string) string {
 // ---- enumeration ------------------------------------------------------------------------------------------------------
 
 // groups with overlapping / duplicate entries (one label may satisfy several entries of a group) are included
-var groupAlphabet = []string{"a", "b", "ab", "test", "a,b", "a*", "b*", "a,test", "t*", "*", "a,a", "a*,a", "a*,ab"}
+var groupAlphabet = []string{"a", "b", "ab", "test", "a,b", "a*", "b*", "a,test", "t*", "*", "a,a", "a*,a", "a*,ab", "a,a,a", "a*,a,a", "*,a*,a", "a*,ab*,ab", "a,b,a*,b*"} // (groups longer than the label set whose entries are all satisfied by one or two labels)
 var excludePatterns = []string{"//p:t3", "//p:all", "//p/...", "//pq/..."}
 var expandPatterns = []string{"//p:all", "//p/...", "//pq:all", "//..."}
 
